@@ -78,6 +78,7 @@ type State struct {
 	allocCnt  int
 	entryHeap map[string]string
 	pathID    int
+	havocAllSeen bool // a callee with "modifies everything" was called on this path
 	calllog   []string
 	callExtra map[string][]string // calls made inside contract-applied callees: symbolic counts per callee name
 	touched   map[string]bool // heap names written on this path (incl. via havoc)
@@ -100,6 +101,7 @@ func (s *State) clone() *State {
 	for k, v := range s.touched {
 		n.touched[k] = v
 	}
+	n.havocAllSeen = s.havocAllSeen
 	n.calllog = append([]string(nil), s.calllog...)
 	if s.callExtra != nil {
 		n.callExtra = map[string][]string{}
@@ -209,7 +211,9 @@ func (s *State) top() *Frame { return s.frames[len(s.frames)-1] }
 // ---------- verification context for one function ----------
 
 type Ctx struct {
+	dbgLast      int
 	extraMods    []modEntry
+	havocAllDeclared bool // the havocAll in progress comes from an explicit "modifies everything" clause
 	curBatch     string
 	batchSeq     int
 	batchMembers []*Obligation
@@ -320,6 +324,15 @@ func (c *Ctx) heapTerm(s *State, name, sort string) string {
 	c.heapSorts[name] = sort
 	base := q(name + "@0")
 	c.declGlobal("heap:"+name, fmt.Sprintf("(declare-const %s %s)", base, sort))
+	if s.havocAllSeen {
+		// a "modifies everything" call happened earlier on this path: a heap first touched now no longer has its
+		// entry contents
+		n := q(c.fresh(name))
+		c.declConst(s, n, sort)
+		s.heap[name] = n
+		s.touched[name] = true
+		return n
+	}
 	s.heap[name] = base
 	return base
 }
